@@ -13,13 +13,23 @@ import (
 // addition/subtraction/multiplication must not wrap and every narrowing
 // conversion must be lossless (interval analysis).
 func (c *Ctx) NumericObligations(rule string, an *Absint, fn *ssa.Function) {
+	c.numericObligations(rule, an, fn, true)
+}
+
+// NarrowingObligations checks only the conversions (modular arithmetic such
+// as hash sums is allowed to wrap).
+func (c *Ctx) NarrowingObligations(rule string, an *Absint, fn *ssa.Function) {
+	c.numericObligations(rule, an, fn, false)
+}
+
+func (c *Ctx) numericObligations(rule string, an *Absint, fn *ssa.Function, wrap bool) {
 	a := an.get(fn)
 	name := FuncName(fn)
 	for _, b := range fn.Blocks {
 		for _, in := range b.Instrs {
 			switch x := in.(type) {
 			case *ssa.BinOp:
-				if !isIntType(x.Type()) {
+				if !isIntType(x.Type()) || !wrap {
 					continue
 				}
 				tr := typeRange(x.Type())
